@@ -63,6 +63,7 @@ type Op struct {
 	Col    int    `json:"col,omitempty"`    // addin / getallin: content id of the collection
 	KN     int    `json:"kn,omitempty"`     // import: 1000 + j (seeded key j); use: signing key (created key number or imported id)
 	M      string `json:"m,omitempty"`      // use: method
+	Var    string `json:"var,omitempty"`    // the token is presented in this variant spelling (see spelling.go)
 }
 
 // Obs is what the implementation did for one op, plus the state of the shared storage afterwards.
@@ -443,7 +444,7 @@ func (w *world) apply(op Op) (obs Obs, touched []hx.Call) {
 			if s := w.spers[w.iuser[op.I]]; s != nil && hadLive {
 				s.closed = true
 			}
-		case isTokenOp(op.Kind) && admitted(obs.Out) && op.Tok >= 0 && op.Tok < len(w.grants):
+		case isTokenOp(op.Kind) && admitted(obs.Out) && op.Tok >= 0 && op.Tok < len(w.grants) && !w.variantOf(op):
 			g := w.grants[op.Tok]
 			if !g.closed && !g.dead {
 				g.last, g.rs, g.re = w.now, t0, t1
@@ -534,7 +535,7 @@ func (w *world) apply(op Op) (obs Obs, touched []hx.Call) {
 		return Obs{Out: "false"}, nil
 	}
 
-	x, tok := w.insts[op.I], w.tokenString(op.Tok)
+	x, tok := w.insts[op.I], w.tokenFor(op)
 
 	switch op.Kind {
 	case "add":
@@ -612,8 +613,8 @@ func errStr(err error) string {
 
 func coqOp(o Op) string {
 	tok := o.Tok
-	if tok < 0 {
-		tok = garbageTok
+	if tok < 0 || (o.Var != "" && o.Var != "lower") {
+		tok = garbageTok // a variant spelling is a string that was never issued
 	}
 
 	switch o.Kind {
@@ -785,6 +786,24 @@ func (s *seqRun) do(op Op) bool {
 		u := s.w.iuser[op.I]
 
 		switch {
+		case s.w.variantOf(op):
+			// another spelling of a token is another string: never issued, whatever the token it resembles
+			why = "variant-spelling"
+
+			if op.Tok >= 0 && op.Tok < len(s.w.grants) {
+				g := s.w.grants[op.Tok]
+
+				switch {
+				case g.closed:
+					why = "variant-of-closed"
+				case s.w.now-g.last > g.ttl:
+					why = "variant-of-expired"
+				case g.user != u:
+					why = "variant-of-foreign-live"
+				default:
+					why = "variant-of-own-live"
+				}
+			}
 		case op.Tok < 0 || op.Tok >= len(s.w.grants):
 			why = "never-issued"
 		case s.w.grants[op.Tok].user != u:
@@ -807,7 +826,7 @@ func (s *seqRun) do(op Op) bool {
 
 	var settle *grant
 	if isTokenOp(op.Kind) && op.I < len(s.w.iuser) && op.Tok >= 0 && op.Tok < len(s.w.grants) &&
-		s.w.grants[op.Tok].unsure && s.w.grants[op.Tok].user == s.w.iuser[op.I] {
+		s.w.grants[op.Tok].unsure && s.w.grants[op.Tok].user == s.w.iuser[op.I] && !s.w.variantOf(op) {
 		settle = s.w.grants[op.Tok]
 	}
 
@@ -1126,14 +1145,25 @@ func (b *builder) probes(r *hx.Rng, kinds []string) {
 	}
 
 	for _, p := range ps {
-		for _, k := range kinds {
-			op := Op{Kind: k, I: p.i, Tok: p.t, C: 1 + r.Intn(2)}
-			if k == "add" {
-				b.nextV++
-				op.V = b.nextV
+		// the token in the issued spelling, and (for one pair in three) in a variant spelling
+		vars := []string{""}
+		if p.t >= 0 && r.Intn(3) == 0 {
+			vars = append(vars, spellings[r.Intn(len(spellings))])
+			if r.Bool() {
+				vars[0], vars[1] = vars[1], vars[0]
 			}
+		}
 
-			b.ops = append(b.ops, op)
+		for _, v := range vars {
+			for _, k := range kinds {
+				op := Op{Kind: k, I: p.i, Tok: p.t, C: 1 + r.Intn(2), Var: v}
+				if k == "add" {
+					b.nextV++
+					op.V = b.nextV
+				}
+
+				b.ops = append(b.ops, op)
+			}
 		}
 	}
 }
@@ -1226,9 +1256,18 @@ func (b *builder) probesFull(r *hx.Rng) {
 			ops[k], ops[j] = ops[j], ops[k]
 		}
 
-		for _, op := range ops {
+		for k, op := range ops {
 			op.I, op.Tok = p.i, p.t
 			b.ops = append(b.ops, op)
+
+			if p.t >= 0 && (k+p.i+p.t)%3 == 0 { // the same call with the token in a variant spelling
+				op.Var = spellings[r.Intn(len(spellings))]
+				if op.Kind == "add" || op.Kind == "addin" {
+					op.V = v()
+				}
+
+				b.ops = append(b.ops, op)
+			}
 		}
 	}
 }
@@ -1472,6 +1511,72 @@ func main() {
 
 		b.probes(r, []string{"key", "get", "add", "key"})
 		jobs = append(jobs, job{"remote-kms", b.ops})
+	}
+
+	// 2d. spellings: every variant spelling x every instance x every token x every method class, in states where the
+	//     token spelt is live (own / foreign), closed, expired
+	nSpell := 8
+	if args.Tier == "thorough" {
+		nSpell = 80
+	}
+
+	for i := 0; i < nSpell; i++ {
+		r := fork()
+		b := newBuilder(2)
+		b.event("openl1")
+		if i%4 == 2 {
+			b.event("opens2") // short expiry: spelt after it has passed
+		} else {
+			b.event("openl2")
+		}
+
+		b.prep(1)
+		b.prep(2)
+
+		switch i % 4 {
+		case 1:
+			b.event("close1")
+		case 2:
+			b.event("full") // the short session of profile 2 expires
+		case 3:
+			b.event("close2")
+			b.event("openl2")
+		}
+
+		for _, sp := range spellings {
+			for inst := range b.iuser {
+				for t := 0; t < b.ntok; t++ {
+					ops := []Op{{Kind: "get", C: 401}, {Kind: "getall", CT: 4}, {Kind: "add", C: 402, V: 0}, {Kind: "remove", C: 401},
+						{Kind: "key"}, {Kind: "import", KN: importBase + 3}, {Kind: "getallin", CT: 2, Col: 101},
+						{Kind: "addin", C: 403, Col: 101}}
+					for _, m := range useMethods {
+						op := Op{Kind: "use", M: m, C: 201, KN: importBase + b.iuser[inst]}
+						if m == "derive-stored" {
+							op.C = 202
+						}
+
+						ops = append(ops, op)
+					}
+
+					// a seeded third of the method classes per (spelling, instance, token): all of them over the stream
+					for k, op := range ops {
+						if (k+r.Intn(3))%3 != 0 {
+							continue
+						}
+
+						op.I, op.Tok, op.Var = inst, t, sp
+						if op.Kind == "add" || op.Kind == "addin" {
+							b.nextV++
+							op.V = b.nextV
+						}
+
+						b.ops = append(b.ops, op)
+					}
+				}
+			}
+		}
+
+		jobs = append(jobs, job{"spelling", b.ops})
 	}
 
 	// 3. seeded random histories over three profiles
